@@ -60,9 +60,9 @@ Proof.
     match goal with |- context [if ?b then _ else _] => destruct b; simpl; rewrite ?Nat.leb_refl; auto end.
 Qed.
 
-Lemma astep_reach : forall fx st l st', astep fx st l = Some st' -> tbl_reachb (tbl (sc st)) (tbl (sc st')) = true.
+Lemma astep_reach : forall st l st', astep st l = Some st' -> tbl_reachb (tbl (sc st)) (tbl (sc st')) = true.
 Proof.
-  intros fx st l st' H. astep_cases H; simpl; try apply tbl_reachb_refl.
+  intros st l st' H. astep_cases H; simpl; try apply tbl_reachb_refl.
   - eapply sstep_reach; eauto.
   - match goal with H : recv _ = Some _ |- _ => apply recv_tbl in H; destruct H as (Ht & _) end.
     rewrite Ht. apply tbl_reachb_refl.
@@ -71,59 +71,59 @@ Qed.
 (* every snapshot that exists anywhere (history file, twin, computed and not yet written) reaches the current state *)
 Definition InvR (st : astate) : Prop := forall x, In x (snaps st) -> tbl_reachb (s_tbl x) (tbl (sc st)) = true.
 
-Lemma InvR_step : forall fx st l st', InvR st -> astep fx st l = Some st' -> InvR st'.
+Lemma InvR_step : forall st l st', InvR st -> astep st l = Some st' -> InvR st'.
 Proof.
-  intros fx st l st' I H x Hx. pose proof (astep_reach _ _ _ _ H) as Hle.
-  destruct (new_snap _ _ _ _ _ H Hx) as [Hold|[[_ Hnew]|[o [_ Hnew]]]].
+  intros st l st' I H x Hx. pose proof (astep_reach _ _ _ H) as Hle.
+  destruct (new_snap _ _ _ _ H Hx) as [Hold|[[_ Hnew]|[o [_ Hnew]]]].
   - eapply tbl_reachb_trans; [apply I; exact Hold | exact Hle].
   - subst. simpl. exact Hle.
   - subst. simpl. exact Hle.
 Qed.
 
-Theorem snapshots_reach_current : forall fx n s0 ls st,
-  exec fx (init n s0) ls = Some st -> InvR st.
+Theorem snapshots_reach_current : forall n s0 ls st,
+  exec (init n s0) ls = Some st -> InvR st.
 Proof.
-  intros fx n s0 ls. assert (G : forall ls st st', InvR st -> exec fx st ls = Some st' -> InvR st').
+  intros n s0 ls. assert (G : forall ls st st', InvR st -> exec st ls = Some st' -> InvR st').
   { clear. intros ls; induction ls as [|l r IH]; intros st st' I He; simpl in *.
     - inversion He; subst; auto.
-    - destruct (astep fx st l) as [st1|] eqn:Hs; [|discriminate]. eapply IH; [|eauto]. eapply InvR_step; eauto. }
+    - destruct (astep st l) as [st1|] eqn:Hs; [|discriminate]. eapply IH; [|eauto]. eapply InvR_step; eauto. }
   intros st He. eapply G; [|exact He]. intros x H. cbv in H. destruct H.
 Qed.
 
 (* later states are reachable from earlier ones *)
-Theorem exec_reach : forall fx ls st st', exec fx st ls = Some st' -> tbl_reachb (tbl (sc st)) (tbl (sc st')) = true.
+Theorem exec_reach : forall ls st st', exec st ls = Some st' -> tbl_reachb (tbl (sc st)) (tbl (sc st')) = true.
 Proof.
-  intros fx ls; induction ls as [|l r IH]; intros st st' He; simpl in *.
+  intros ls; induction ls as [|l r IH]; intros st st' He; simpl in *.
   - inversion He; subst. apply tbl_reachb_refl.
-  - destruct (astep fx st l) as [st1|] eqn:Hs; [|discriminate].
+  - destruct (astep st l) as [st1|] eqn:Hs; [|discriminate].
     eapply tbl_reachb_trans; [eapply astep_reach; eauto | eapply IH; eauto].
 Qed.
 
 (* every snapshot carries Scheduler.Status (as Agent.Status reads it) of an EARLIER OR EQUAL scheduler state: one from which
    the snapshot's table is reachable (check 1 of Status/Check.v searches exactly these) *)
-Definition InvO (fx : bool) (st : astate) : Prop :=
-  (forall x, In x (snaps st) -> exists s1, s_ov x = ov_of fx s1 /\ tbl_reachb (tbl s1) (s_tbl x) = true) /\
-  (forall o, In o (ovs st) -> exists s1, o = ov_of fx s1 /\ tbl_reachb (tbl s1) (tbl (sc st)) = true).
+Definition InvO (st : astate) : Prop :=
+  (forall x, In x (snaps st) -> exists s1, s_ov x = ov_of s1 /\ tbl_reachb (tbl s1) (s_tbl x) = true) /\
+  (forall o, In o (ovs st) -> exists s1, o = ov_of s1 /\ tbl_reachb (tbl s1) (tbl (sc st)) = true).
 
-Lemma InvO_step : forall fx st l st', InvO fx st -> astep fx st l = Some st' -> InvO fx st'.
+Lemma InvO_step : forall st l st', InvO st -> astep st l = Some st' -> InvO st'.
 Proof.
-  intros fx st l st' [IA IB] H. pose proof (astep_reach _ _ _ _ H) as Hle. split.
-  - intros x Hx. destruct (new_snap _ _ _ _ _ H Hx) as [Hold|[[_ Hnew]|[o [Ho Hnew]]]].
+  intros st l st' [IA IB] H. pose proof (astep_reach _ _ _ H) as Hle. split.
+  - intros x Hx. destruct (new_snap _ _ _ _ H Hx) as [Hold|[[_ Hnew]|[o [Ho Hnew]]]].
     + apply IA; auto.
     + subst. exists (sc st). split; [reflexivity | apply tbl_reachb_refl].
     + subst. simpl. destruct (IB o Ho) as [s1 [E R]]. exists s1. split; auto.
-  - intros o Ho. destruct (new_ov _ _ _ _ _ H Ho) as [Hold|[_ Hnew]].
+  - intros o Ho. destruct (new_ov _ _ _ _ H Ho) as [Hold|[_ Hnew]].
     + destruct (IB o Hold) as [s1 [E R]]. exists s1. split; auto. eapply tbl_reachb_trans; eauto.
     + subst. exists (sc st). split; auto.
 Qed.
 
-Theorem snapshot_overall : forall fx n s0 ls st,
-  exec fx (init n s0) ls = Some st ->
-  forall x, In x (snaps st) -> exists s1, s_ov x = ov_of fx s1 /\ tbl_reachb (tbl s1) (s_tbl x) = true.
+Theorem snapshot_overall : forall n s0 ls st,
+  exec (init n s0) ls = Some st ->
+  forall x, In x (snaps st) -> exists s1, s_ov x = ov_of s1 /\ tbl_reachb (tbl s1) (s_tbl x) = true.
 Proof.
-  intros fx n s0 ls. assert (G : forall ls st st', InvO fx st -> exec fx st ls = Some st' -> InvO fx st').
+  intros n s0 ls. assert (G : forall ls st st', InvO st -> exec st ls = Some st' -> InvO st').
   { clear. intros ls; induction ls as [|l r IH]; intros st st' I He; simpl in *.
     - inversion He; subst; auto.
-    - destruct (astep fx st l) as [st1|] eqn:Hs; [|discriminate]. eapply IH; [|eauto]. eapply InvO_step; eauto. }
+    - destruct (astep st l) as [st1|] eqn:Hs; [|discriminate]. eapply IH; [|eauto]. eapply InvO_step; eauto. }
   intros st He. apply (G ls (init n s0) st); auto. split; intros x H; cbv in H; destruct H.
 Qed.
